@@ -42,7 +42,7 @@ def main():
         sh("rm -rf %s" % SCRATCH)
         verdict = "CAUGHT" if all(v[0] == 1 for v in res.values()) else "MISSED"
         if verdict == "MISSED" and meta.get("expected_verdict") == "MISSED":
-            verdict = "MISSED (documented limit, see DESIGN.md)"
+            verdict = "MISSED (%s)" % meta.get("expected_note", "documented limit, see DESIGN.md")
         rows.append((name, verdict, " ".join("%s rc=%d %ds" % (k, v[0], v[1]) for k, v in res.items())))
         print("%-12s %-7s %s" % rows[-1], flush=True)
     with open(os.path.join(ROOT, "selftest", "SEEDED-%s.md" % tier), "w") as f:
